@@ -60,6 +60,11 @@ SPEC = {
              "updated in place at up to three of its stored points (ref = result.getPayloadRef(*point); ref += 1000): the result "
              "must hold its content with the update and the operand its own content; then the operand is updated the same way "
              "and the result must not change (also judged between the result of a round trip and the intermediate result).  "
+             "60% of the tensor-level flatten(tuple, pair) cases (every systematic one) whose result keeps a rank below the "
+             "combined one use that result twice: it is first flattened (tuple / pair) or merged (absolute, sum) again at the "
+             "same depth - the second result must hold the image of the first - and then unflattened as before (content and "
+             "rank ids of the original restored).  Merges use every merge function and every leaf default at every depth (also "
+             "where whole sub-fibers collide and a lower coordinate is present in only some of them).  "
              "6% of the swizzle / swap / flatten / split+flatten cases and 15% of the merge cases take a tree one rank of which "
              "(any position) is wide, 20-48 coordinates (30% of those merges: two adjacent wide ranks of 32-40, the remaining "
              "extents 2), so that up to 48 points or whole sub-fibers collide at one merged coordinate.  Systematic part: every (transform, depth, levels, style, entry point, "
@@ -88,13 +93,16 @@ SPEC = {
                              "pre_split:swap": 60, "pre_split:flatten": 200, "results_reused": 400,
                              "results_updated": 4000, "wide_rank_inputs": 300, "wide_rank:swizzle": 40, "wide_rank:flatten": 60,
                              "wide_rank:merge": 150, "merge_fanin:10-26": 25, "merge_fanin:27+": 40,
-                             "fiber_merge_fanin:27+": 8},
+                             "fiber_merge_fanin:27+": 8, "flattened_results_transformed_again": 120, "again:tuple": 30,
+                             "again:pair": 30, "again:merge": 30, "fiber_merge_partial_presence:nonzero_default": 20,
+                             "fiber_merge_partial_presence:fn_without_neutral_default": 60},
                    "thorough": {"evaluations": 30000, "oracle_evals": 150000, "results_judged": 50000,
                                 "roundtrips_checked": 15000, "collisions_merged": 5000, "containment_checked": 15000,
                                 "tuple_rank_inputs": 5000, "tuple_rank:swap": 500, "multichar_id_inputs": 10000,
                                 "rank_ids_checked": 12000, "pre_split_inputs": 4000, "pre_split_several_partitions": 3000,
                                 "results_reused": 4000, "results_updated": 40000, "wide_rank_inputs": 3000,
-                                "merge_fanin:27+": 300, "fiber_merge_fanin:27+": 50}},
+                                "merge_fanin:27+": 300, "fiber_merge_fanin:27+": 50,
+                                "flattened_results_transformed_again": 1200, "fiber_merge_partial_presence:nonzero_default": 200}},
     "assumptions": [
         "ordered/unique fibers with integer coordinates in the operand; coordinates (also those written through getPayloadRef) lie "
         "inside the shape when a shape is declared",
@@ -103,11 +111,16 @@ SPEC = {
         "linear has no inverse operation)",
         "Fiber.swapRanks / Fiber.unflattenRanks are called directly only on fibers that hold at least one point "
         "(both assert a first tuple coordinate); the tensor-level forms and the *Below forms are also given empty operands",
-        "merge functions: when the merged ranks end at the leaf rank (colliding *points*), sum (default), max, min, prod and - for "
-        "levels == 1 - count are used; when fibers collide above the leaf rank the library hands absent entries to merge_fn as "
-        "defaults (documented: fibers are merged with union), so there only functions for which the default is neutral are "
-        "generated (sum with default 0, max over positive values with default 0).  Multi-level merges apply merge_fn "
-        "hierarchically, so only associative and commutative functions are used with levels > 1",
+        "merge functions: sum (default), max, min, prod and - for levels == 1 - count, with leaf default 0 or 7, at every depth: "
+        "the statement reduces colliding *points*, so also when whole sub-fibers collide above the leaf rank merge_fn is owed "
+        "exactly the values of the points that are there (an absent entry is not a point; the oracle reduces the raw colliding "
+        "values).  Multi-level merges apply merge_fn hierarchically, so only associative and commutative functions are used with "
+        "levels > 1.  TEMPORARY guard pending decision (defect candidate): not generated - leaf default != 0 with levels > 1 when "
+        "the merge ends above the leaf rank (a leaf value 0 of an intermediate level is taken as absent by the next level)",
+        "second use of a flattened tensor (clause result-transformed-again): tensor-level flatten(tuple / pair) results that passed "
+        "the oracle and keep a rank below the combined one; second transform = flattenRanks(depth, 1, tuple / pair) or "
+        "mergeRanks(depth, 1, absolute, default merge_fn); only its content / WF / RC / containment are judged (its rank ids are "
+        "C14's); the first result is then unflattened and judged exactly as without the second use",
         "content of every result is read with the operand's leaf default (a result's own default / rank ids / shape / format are C14's)",
         "a result may keep or drop explicit defaults and empty sub-fibers (content is compared); that the transform itself leaves the "
         "operand structurally as it was is C10's",
@@ -479,21 +492,29 @@ def _positive_only(case):
             and all(v is None or v > 0 for _, v in case.get("pokes") or []))
 
 
+AGAIN = ("tuple", "pair", "merge")       # second transform applied to a flattened tensor before it is unflattened
+
+
+def _again_legal(c):
+    """A flattened tensor (tuple / pair) that still has a rank below the combined one can be flattened / merged again at the
+    same depth before it is unflattened."""
+    return (c["kind"] == "flatten" and c["mode"] == "tensor" and c["style"] in ("tuple", "pair")
+            and c["d"] + c["l"] < c["depth"] - 1)
+
+
 def _merge_legal(c):
-    """Restrict (merge_fn, tree) to what the statement covers (see SPEC assumptions)."""
-    D, d, l, fn = c["depth"], c["d"], c["l"], c["fn"]
-    leaf_level = (d + l == D - 1)
-    if fn == "count" and l != 1:
+    """Restrict (merge_fn, tree) to what the statement covers (see SPEC assumptions): colliding points are reduced with
+    merge_fn - only the points that are there, also when whole sub-fibers collide above the leaf rank - so every
+    associative and commutative function and every leaf default is legal at every depth; `count` (not associative) only
+    for a single merged level."""
+    if c["fn"] == "count" and c["l"] != 1:
         return False
-    if leaf_level:
-        return True
-    if c["default"] != 0:
+    if c["default"] != 0 and c["l"] > 1 and c["d"] + c["l"] < c["depth"] - 1:
+        # TEMPORARY guard pending decision: defect candidate - a multi-level merge that ends above the leaf rank, leaf default
+        # != 0: the fibers _mergeToFibertree builds for one level carry default 0, so a merged (or stored) leaf value 0 is
+        # taken as absent by the union of the next level (prod(0, 5, 3) gives 3; the point is dropped when all are 0)
         return False
-    if fn in (None, "sum"):
-        return True
-    if fn == "max":
-        return _positive_only(c)
-    return False
+    return True
 
 
 def generate(rng, tier, shard, nshards, mon):
@@ -503,6 +524,8 @@ def generate(rng, tier, shard, nshards, mon):
             case["sys"] = True
             if "post" not in case and idx % 3 == 0 and case["kind"] in POST_KINDS and case.get("mode", "tensor") == "tensor":
                 case["post"] = _post(idx // 3)
+            if _again_legal(case):
+                case["again"] = AGAIN[idx % len(AGAIN)]
             yield case
         idx += 1
     mon.exhaustive["all (transform, depth, levels, style, entry point, permutation) over the fixed tree family"] = True
@@ -600,6 +623,8 @@ def _random_case(rng):
         case["pokes"] = _pokes(rng, D, ext, shape, default)
         if kind == "merge" and not _merge_legal(case):
             del case["pokes"]
+    if _again_legal(case) and rng.random() < 0.6:
+        case["again"] = rng.choice(AGAIN)
     if kind == "updcoords" and shape is None and (case.get("pokes") or not spec):
         case["new_shape"] = 32      # the rank's shape is unknown / stale: updateCoords is documented to take it as new_shape
     return case
@@ -1277,6 +1302,8 @@ def _run_flatten(ctx):
         # is, and the rank takes the flattened (tuple) shape / active range from it
         noreuse = "unflatten-leaves-content-empty-subtree"
     tr = case.get("tr")
+    if good and case.get("again") and isinstance(r, Tensor):
+        _again(ctx, op, desc, r, exp, d, case["again"])
     if style == "tuple" and tr is not None and d <= tr < d + l:
         # a flat tuple cannot tell a tuple coordinate of an upper combined rank from separate coordinates: not invertible
         mon.count("tuple_unflatten_not_invertible_skipped")
@@ -1324,6 +1351,36 @@ def _run_flatten(ctx):
     if good and mode != "below" and now is not None:
         _updated(ctx, op, desc, r, now, x, c0)
     return good and bool(c0), len(c0)
+
+
+def _again(ctx, op, desc, r, exp, d, how):
+    """Any number of levels / every result is itself a tensor: the flattened tensor `r` (content `exp`, a list rank id at
+    depth d) is the operand of a second flattening (tuple / pair) or merge (absolute, sum) of its combined rank with the
+    rank below.  The second result has to hold the image of `exp`; `r` itself is afterwards unflattened by the caller as
+    if nothing had happened (the round trip restores content and rank ids of the original)."""
+    mon, default = ctx.mon, ctx.default
+    stored = spec_of(_root(r))
+    tags = _skip_tag(stored, d, default)
+    op2 = op + ":result-transformed-again"
+    groups = _img_flatten(exp, d, 1, "absolute" if how == "merge" else how, None)
+    if how == "merge":
+        exp2 = {}
+        for q, g in groups.items():
+            v = g[0][1] if len(g) == 1 else sum(e[1] for e in g)
+            if v != default:
+                exp2[q] = v
+        desc2 = f"Tensor.mergeRanks(depth={d}, levels=1, coord_style='absolute') of the result of {desc}"
+        ok, r2 = _call(ctx, op2, desc2, r.mergeRanks, depth=d, levels=1, coord_style="absolute", tags=tags)
+    else:
+        if any(len(g) > 1 for g in groups.values()):
+            raise RuntimeError("harness: flatten image is not injective")
+        exp2 = {q: g[0][1] for q, g in groups.items()}
+        desc2 = f"Tensor.flattenRanks(depth={d}, levels=1, coord_style={how!r}) of the result of {desc}"
+        ok, r2 = _call(ctx, op2, desc2, r.flattenRanks, depth=d, levels=1, coord_style=how, tags=tags)
+    mon.count("flattened_results_transformed_again")
+    mon.count(f"again:{how}")
+    if ok:
+        _judge(ctx, op2, desc2, r2, exp2, style=how, tags=tags)
 
 
 # -- merge -------------------------------------------------------------------------------------
@@ -1395,6 +1452,13 @@ def _run_merge(ctx):
         mon.count(f"merge_fanin:{fclass}")
         if d + l < D - 1:
             mon.count(f"fiber_merge_fanin:{fclass}")
+            if fanin >= 2 and ncoll < sum(len(g) > 0 for g in groups.values()):
+                # sub-fibers collide and some lower coordinate is present in only one of them: nothing but the points that
+                # are there may reach merge_fn
+                if default != 0:
+                    mon.count("fiber_merge_partial_presence:nonzero_default")
+                if fn not in (None, "sum"):
+                    mon.count("fiber_merge_partial_presence:fn_without_neutral_default")
     mon.state(("merge", D, d, l, style, fname, mode, sorted(map(str, exp.items()))[:6]))
     if good and mode == "tensor":
         _reuse(ctx, op, desc, r, exp)
